@@ -167,6 +167,9 @@ def run_case(case):
         tr2 = TapeRecorder(fresh)
         Op2, handlers2 = make_op(tr2, spec)
         dst = os.path.join(scratch, 'replayed_target.bin')
+        if case['handler'] == 'input' and not twice:   # a stale file of the same size, other content, is already in place
+            with real_open(dst, 'wb') as f:
+                f.write(b'Z' * len(PLACEHOLDER if len(content) > limit_bytes else content))
         plan2 = [call(dst)] if not twice else [call(dst), call(dst)]
         snaps = []
 
